@@ -9,7 +9,7 @@
 (***************************************************************************)
 EXTENDS Naturals, Sequences, TLC, Json
 CONSTANTS MaxLen, Dev
-Ops == {"ensure_kid", "thumbprint", "as_dict_pub", "as_dict", "keyset_new", "get_kid", "sign", "sign2", "sign_ks", "verify", "verify2", "encrypt", "encrypt2", "decrypt", "decrypt2", "decrypt_zip", "decrypt_zip_over", "verify_forged", "ks_export", "ks_verify", "ks_sign", "sign_raw", "verify_raw_unlisted", "reg_ecdh", "reg_foreign_name", "sigkey_view", "sigkey_misuse", "pem_plain", "pem_password"}
+Ops == {"ensure_kid", "thumbprint", "as_dict_pub", "as_dict", "keyset_new", "get_kid", "sign", "sign2", "sign_ks", "verify", "verify2", "encrypt", "encrypt2", "decrypt", "decrypt2", "decrypt_zip", "decrypt_zip_over", "verify_forged", "ks_export", "ks_verify", "ks_sign", "sign_raw", "verify_raw_unlisted", "reg_ecdh", "reg_foreign_name", "sigkey_view", "sigkey_misuse", "pem_plain", "pem_password", "encrypt_c20p", "encrypt_xc20p"}
 VARIABLES view, kid, hist, cache
 vars == <<view, kid, hist, cache>>
 Init == view = FALSE /\ kid = FALSE /\ hist = <<>> /\ cache = "none"
